@@ -279,6 +279,54 @@ Definition loop_restore (orig : list (string * option value)) (v : env) : env :=
                | None => del_key (fst kv) acc
                end) orig v.
 
+(* the helpers below take the token renderer as a parameter (bound outside the fix), so that the
+   renderer can be a structural Fixpoint on token *)
+Definition render_branches (f : token -> M tok_out) (ctx : env) : list branch -> M tok_out :=
+  fix go (l : list branch) : M tok_out :=
+    match l with
+    | [] => ret (""%string, CNext, [])
+    | Branch cond cont chs :: r =>
+        match o_eval orc ctx cond with
+        | Exc _ => go r
+        | Ok b =>
+            if truthy b then
+              do '(txt, j, ds) <- seqr f cont;
+              let ds' := (ds ++ map (fun c => DChoice c None) chs)%list in
+              ret (txt, match j with Some sp => CJump sp | None => CNext end, ds')
+            else go r
+        end
+    end.
+
+Definition render_loop_choices (f : token -> M tok_out) : list choice -> M (list directive) :=
+  fix rch (l : list choice) : M (list directive) :=
+    match l with
+    | [] => ret []
+    | c :: r =>
+        do '(t, _, _) <- seqr f (ch_text c);
+        do rs <- rch r; ret (DChoice c (Some t) :: rs)
+    end.
+
+Definition render_loop_items (f : token -> M tok_out) (vs : list string) (cont : list token)
+           (chs : list choice) : list value -> M tok_out :=
+  fix iter (its : list value) : M tok_out :=
+    match its with
+    | [] => ret (""%string, CNext, [])
+    | item :: rest =>
+        do s0 <- get;
+        let '(v1, orig) := loop_bind vs item (vars (nc s0)) in
+        do _ <- set_vars v1;
+        do '(txt, j, ds) <- seqr f cont;
+        do chds <- render_loop_choices f chs;
+        do s1 <- get;
+        do _ <- set_vars (loop_restore orig (vars (nc s1)));
+        match j with
+        | Some sp => ret (txt, CJump sp, (ds ++ chds)%list)
+        | None =>
+            do '(txt2, c2, ds2) <- iter rest;
+            ret ((txt ++ txt2)%string, c2, (ds ++ chds ++ ds2)%list)
+        end
+    end.
+
 Fixpoint render_tok (t : token) {struct t} : M tok_out :=
   match t with
   | TText v => ret (v, CNext, [])
@@ -291,22 +339,7 @@ Fixpoint render_tok (t : token) {struct t} : M tok_out :=
           catch (do '(txt, _, _) <- seqr render_tok (if truthy b then tr else fa); ret (txt, CNext, []))
                 (fun _ => ret (ERR, CNext, []))
       end
-  | TCond brs =>
-      do ctx <- ctx_now;
-      (fix go (l : list branch) : M tok_out :=
-         match l with
-         | [] => ret (""%string, CNext, [])
-         | Branch cond cont chs :: r =>
-             match o_eval orc ctx cond with
-             | Exc _ => go r
-             | Ok b =>
-                 if truthy b then
-                   do '(txt, j, ds) <- seqr render_tok cont;
-                   let ds' := (ds ++ map (fun c => DChoice c None) chs)%list in
-                   ret (txt, match j with Some sp => CJump sp | None => CNext end, ds')
-                 else go r
-             end
-         end) brs
+  | TCond brs => do ctx <- ctx_now; render_branches render_tok ctx brs
   | TLoop var coll cont chs =>
       if String.eqb var "" || String.eqb coll "" then ret (""%string, CNext, []) else
       (* the whole loop is inside try/except Exception; the handler returns a 2-tuple, which the
@@ -315,31 +348,7 @@ Fixpoint render_tok (t : token) {struct t} : M tok_out :=
         (do ctx <- ctx_now;
          do c <- lift_res (o_eval orc ctx coll);
          do items <- lift_res (py_iter c);
-         let vs := split_vars var in
-         (fix iter (its : list value) : M tok_out :=
-            match its with
-            | [] => ret (""%string, CNext, [])
-            | item :: rest =>
-                do s0 <- get;
-                let '(v1, orig) := loop_bind vs item (vars (nc s0)) in
-                do _ <- set_vars v1;
-                do '(txt, j, ds) <- seqr render_tok cont;
-                do chds <- (fix rch (l : list choice) : M (list directive) :=
-                              match l with
-                              | [] => ret []
-                              | c :: r =>
-                                  do '(t, _, _) <- seqr render_tok (ch_text c);
-                                  do rs <- rch r; ret (DChoice c (Some t) :: rs)
-                              end) chs;
-                do s1 <- get;
-                do _ <- set_vars (loop_restore orig (vars (nc s1)));
-                match j with
-                | Some sp => ret (txt, CJump sp, (ds ++ chds)%list)
-                | None =>
-                    do '(txt2, c2, ds2) <- iter rest;
-                    ret ((txt ++ txt2)%string, c2, (ds ++ chds ++ ds2)%list)
-                end
-            end) items)
+         render_loop_items render_tok (split_vars var) cont chs items)
         (fun _ => raise ValueError)
   | TJump target args => ret (""%string, CJump (jump_spec target args), [])
   | TPyStmt code => do _ <- exec_statement code; ret (""%string, CNext, [])
@@ -487,9 +496,25 @@ Definition parse_spec (spec : string) : res (string * string) :=
 Definition merge_content (a b : string) : string :=
   if String.eqb a "" then b else if String.eqb b "" then a else (a ++ String "010"%char (String "010"%char b))%string.
 
-Inductive nav_err := OutOfFuel.
+Definition has_scope (p : passage) (args : string) : bool :=
+  negb (match params p with [] => true | _ => false end) || negb (String.eqb args "").
 
-Fixpoint goto_rec (fuel : nat) (spec : string) (visited : list string) : M (output * list string) :=
+(* argument evaluation and binding; pushes the parameter scope *)
+Definition enter_scope (p : passage) (args : string) : M unit :=
+  if has_scope p args then
+    do ctx <- ctx_now;
+    do ad <- lift_res (if String.eqb args "" then Ok [] else parse_args ctx args);
+    match bind_arguments ctx (params p) ad 0 [] with
+    | Ok pv => push_scope pv
+    | Exc _ => raise ValueError
+    end
+  else ret tt.
+
+Definition chain_output (o jo : output) : output :=
+  mkOut (merge_content (o_content o) (o_content jo)) (o_choices jo) (o_pid jo)
+        (o_render o ++ o_render jo)%list (o_input jo) None.
+
+Fixpoint goto_rec (fuel : nat) (spec : string) (visited : list string) : M output :=
   match fuel with
   | O => raise OtherError      (* never reached with fuel = #passages + 1: see goto_fuel_enough *)
   | S fuel' =>
@@ -497,62 +522,51 @@ Fixpoint goto_rec (fuel : nat) (spec : string) (visited : list string) : M (outp
       match get_passage st pid with
       | None => raise ValueError
       | Some p =>
-          let has_scope := negb (match params p with [] => true | _ => false end) || negb (String.eqb args "") in
-          do _ <- (if has_scope then
-                     do ctx <- ctx_now;
-                     do ad <- lift_res (if String.eqb args "" then Ok [] else parse_args ctx args);
-                     do ctx0 <- ctx_now;
-                     match bind_arguments ctx0 (params p) ad 0 [] with
-                     | Ok pv => push_scope pv
-                     | Exc _ => raise ValueError
-                     end
-                   else ret tt);
+          do _ <- enter_scope p args;
           finally
             (if str_in pid visited then raise RuntimeError else
-             let visited' := (visited ++ [pid])%list in
              do _ <- set_cur pid;
              do s <- get;
              do _ <- set_joinidx (set_key pid 0 (joinidx (nc s)));
              do _ <- execute_passage pid;
              do o <- render_passage pid;
-             do '(o', vis) <-
-                match o_jump o with
-                | Some target =>
-                    do '(jo, vis) <- goto_rec fuel' target visited';
-                    ret (mkOut (merge_content (o_content o) (o_content jo)) (o_choices jo) (o_pid jo)
-                               (o_render o ++ o_render jo)%list (o_input jo) None, vis)
-                | None => ret (o, visited')
-                end;
+             do o' <- match o_jump o with
+                      | Some target =>
+                          do jo <- goto_rec fuel' target (visited ++ [pid])%list;
+                          ret (chain_output o jo)
+                      | None => ret o
+                      end;
              do _ <- set_out o';
-             ret (o', vis))
-            (if has_scope then pop_scope else ret tt)
+             ret o')
+            (if has_scope p args then pop_scope else ret tt)
       end
   end.
 
 Definition goto (spec : string) : M output :=
-  do '(o, _) <- goto_rec (S (List.length (passages st))) spec []; ret o.
+  goto_rec (S (List.length (passages st))) spec [].
 
 (* trigger_event *)
+Fixpoint run_hooks (l : list string) : M (list string) :=
+  match l with
+  | [] => ret []
+  | p :: r =>
+      match get_passage st p with
+      | None => run_hooks r
+      | Some _ =>
+          do _ <- emit (EvHookRun p);
+          do _ <- execute_passage p;
+          do o <- render_passage p;
+          do rest <- run_hooks r;
+          ret (if all_space (o_content o) then rest else o_content o :: rest)
+      end
+  end.
+
 Definition trigger_event (ev : string) : M string :=
   do s <- get;
   match lookup ev (hooks (nc s)) with
   | None => ret ""%string
   | Some active =>
-      do outs <-
-         (fix go (l : list string) : M (list string) :=
-            match l with
-            | [] => ret []
-            | p :: r =>
-                match get_passage st p with
-                | None => go r
-                | Some _ =>
-                    do _ <- emit (EvHookRun p);
-                    do _ <- execute_passage p;
-                    do o <- render_passage p;
-                    do rest <- go r;
-                    ret (if all_space (o_content o) then rest else o_content o :: rest)
-                end
-            end) active;
+      do outs <- run_hooks active;
       ret (join (String "010"%char EmptyString) outs)
   end.
 
